@@ -308,7 +308,10 @@ class StringTuning(object):
         int_notes = [notes.note_to_int(x) for x in names]
 
         # Base of the string
-        s = int(self.tuning[string]) % 12
+        s = self.tuning[string]
+        if isinstance(s, list):
+            s = s[0]
+        s = int(s) % 12
         for x in range(0, maxfret + 1):
             if (s + x) % 12 in int_notes:
                 result.append((x, names[int_notes.index((s + x) % 12)]))
